@@ -231,8 +231,11 @@ func (x *shimStream) Sum() []byte {
 	}
 	return x.s.Sum([]byte{0xee})[1:]
 }
-func (x *shimStream) Clone() stream { c := x.s.Clone().(*verifshim.State); return &shimStream{c, x.fixed} }
-func (x *shimStream) Reset()        { x.s.Reset() }
+func (x *shimStream) Clone() stream {
+	c := x.s.Clone().(*verifshim.State)
+	return &shimStream{c, x.fixed}
+}
+func (x *shimStream) Reset() { x.s.Reset() }
 
 type xofStream struct{ x xof.XOF }
 
